@@ -1,0 +1,57 @@
+//go:build verif
+
+package router
+
+import "github.com/gammazero/nexus/v3/wamp"
+
+// VerifTableSizes returns the sizes of the per-session, per-subscription,
+// per-registration and per-call tables of the named realm, each read inside
+// the goroutine that owns it. It is read-only and exists only in builds with
+// the "verif" tag.
+//
+// Order: realm clients, testaments; broker topicSubscription,
+// pfxTopicSubscription, wcTopicSubscription, subscriptions, sessionSubIDSet,
+// eventHistoryStore; dealer procRegMap, pfxProcRegMap, wcProcRegMap,
+// registrations, calls, invocations, invocationByCall, calleeRegIDSet.
+func VerifTableSizes(rt Router, realmURI wamp.URI) ([]int, bool) {
+	r, ok := rt.(*router)
+	if !ok {
+		return nil, false
+	}
+	var rl *realm
+	sync := make(chan struct{})
+	r.actionChan <- func() {
+		rl = r.realms[realmURI]
+		close(sync)
+	}
+	<-sync
+	if rl == nil {
+		return nil, false
+	}
+	out := make([]int, 0, 16)
+	done := make(chan struct{})
+	rl.actionChan <- func() {
+		out = append(out, len(rl.clients), len(rl.testaments))
+		close(done)
+	}
+	<-done
+	done = make(chan struct{})
+	rl.broker.actionChan <- func() {
+		b := rl.broker
+		out = append(out, len(b.topicSubscription), len(b.pfxTopicSubscription),
+			len(b.wcTopicSubscription), len(b.subscriptions), len(b.sessionSubIDSet),
+			len(b.eventHistoryStore))
+		close(done)
+	}
+	<-done
+	done = make(chan struct{})
+	rl.dealer.actionChan <- func() {
+		d := rl.dealer
+		out = append(out, len(d.procRegMap), len(d.pfxProcRegMap), len(d.wcProcRegMap),
+			len(d.registrations), len(d.calls), len(d.invocations),
+			len(d.invocationByCall), len(d.calleeRegIDSet))
+		close(done)
+	}
+	<-done
+	return out, true
+}
